@@ -302,6 +302,7 @@ def alias_ambiguities(stmt):
     S1 and S2: 'from_child' (S2 is reached from S1 through derived tables in FROM only - the unchanged tree resolves these correctly, the outer
     alias edge is added last) or 'other' (WHERE / select-list subquery, sibling set-operation branch, CTE body ...)."""
     scopes = []  # (scope id, path of (parent id, edge kind), [(table key | None, alias)])
+    derived_aliases = []  # (scope id of the block that has the derived table, its alias, that block's path)
 
     def sel(q, path):
         if isinstance(q, ir.With):
@@ -324,7 +325,8 @@ def alias_ambiguities(stmt):
                 rels.append((None, (fi.alias or fi.name).lower()))
             elif isinstance(fi, ir.Derived):
                 rels.append((None, fi.alias.lower()))
-                sel(fi.q, path + [("from", sid)])
+                derived_aliases.append((sid, fi.alias.lower(), list(path)))
+                sel(fi.q, path + [("from", sid, fi.alias.lower())])
             elif isinstance(fi, ir.Nested):
                 item(fi.group.first)
                 for j in fi.group.joins:
@@ -366,10 +368,18 @@ def alias_ambiguities(stmt):
                     if any(x2 == x and q2 == q for x2, q2 in rels2):
                         # is S2 below S1 through FROM-derived tables only?
                         tail = path2[len(path1):] if path2[:len(path1)] == path1 else None
-                        if tail is not None and tail and all(k == "from" for k, _ in tail) and tail[0][1] == sid1 and y is not None:
+                        if tail is not None and tail and all(e[0] == "from" for e in tail) and tail[0][1] == sid1 and y is not None:
                             kinds.add("from_child")  # Y is a base table: resolved correctly on the unchanged tree
                         else:
                             kinds.add("other")
+    # second trigger (seen by the thorough tier): the alias q of a DERIVED table of block S1 is carried by a base table somewhere INSIDE that derived table,
+    # in a block reached through a WHERE / select-list subquery: 'FROM (SELECT .. WHERE x IN (SELECT .. FROM tc n1)) n1' resolves the outer n1.c to tc
+    for sid1, q, path1 in derived_aliases:
+        prefix = path1 + [("from", sid1, q)]
+        for sid2, path2, rels2 in scopes:
+            if path2[:len(prefix)] == prefix and any(x2 is not None and q2 == q for x2, q2 in rels2):
+                if any(e[0] != "from" for e in path2[len(prefix):]):
+                    kinds.add("other")
     return kinds
 
 
